@@ -126,7 +126,9 @@ CONVERTER_ALIASES = [("C13", {"C13-S1", "C13-S2", "C13-S3"}, "output-side and ab
 
 DEPS = {
     "C01": C19_ALL + STEP_TABLE + LOOP_FAITHFUL,
-    "C02": C01_ALL + C19_ALL + STEP_TABLE + LOOP_FAITHFUL,
+    "C02": C01_ALL + C19_ALL + STEP_TABLE + LOOP_FAITHFUL + [
+        ("C03", {"C03-T1", "C03-R2"}, "a press fires the mapping its held keys select (a key that has a satisfied mapping is consumed, not passed through)"),
+        ("C08", {"C08-R1", "C08-R2"}, "which held keys count for that selection: an absorbed key is hidden until it is pressed again, and forgotten as absorbed before the look-up")],
     "C03": IP_EXACT + AM_EXACT + C19_ALL + CONVERTER_ORDER,
     "C04": C01_ALL + C19_ALL + [("C11", {"C11-R3", "C11-R4"}, "a repeat chord presses only keys that are not held and releases exactly those: it leaves the held set as it was")],
     "C05": IP_EXACT + C19_ALL + ACTION_KEY_TABLE + CONVERTER_REPEAT,
